@@ -1,48 +1,41 @@
 import SaphyrVerif.Props.C15
 /-!
-# C15 — findings: counter-example theorems (negations of the full statements, with concrete witnesses)
+# C15 — former findings, now regression theorems
 
-Model and implementation AGREE on these (the oracle of the `calls` area reproduces each of them on the real
-code under the stable ids `C15-nested-call-clobbers-anchors` and
-`C15-nested-call-inherits-fallback-location`); it is the property that fails.
+Both defects found by this property were repaired in /repo:
+* b68ea91 — `with_document_scope` takes the enclosing call's `AnchorState` out of the thread-local and puts
+  it back afterwards (was: `reset()` before and after), oracle id `C15-nested-call-clobbers-anchors`;
+* 4aaf328 — `FallbackScopeGuard`: the fallback location is cleared for a document scope and restored
+  afterwards (was: never cleared), oracle id `C15-nested-call-inherits-fallback-location`.
+
+The theorems below evaluate the model (which follows the repaired code) on the former witnesses; the
+oracle of the `calls` area replays the same witnesses on the implementation under the same ids and reports
+a violation if one of them fails again. The general statements are `nested_call_independent`,
+`nested_call_is_noop` and `nested_call_transparent` in `Props/C15.lean`.
 -/
 namespace SaphyrVerif.Tls
 
-/-- (F) FINDING (oracle id `C15-nested-call-inherits-fallback-location`): the nested call
-`from_str::<NonZeroU8>("0")` made while the enclosing call's cell holds `line 2, column 1` fails with THAT
-location (of the enclosing document); on a fresh thread the error has no location. -/
-theorem nested_call_inherits_outer_fallback :
-    (runCall callNonZero ⟨.empty, some (loc 2 1)⟩).1.out = .err (loc 2 1) ∧
-    (runCall callNonZero Tls.init).1.out = .err 0 := by decide
-
-theorem nested_call_independent_Full_false : ¬ nested_call_independent_Full := by
-  intro h
-  have := h callNonZero ⟨.empty, some (loc 2 1)⟩ (by decide)
-  revert this
-  decide
-
-/-- (F) FINDING (DESIGN.md section 6, oracle id `C15-nested-call-clobbers-anchors`): with the nested call
-the fields `x` and `y` get two different pointers although `y` is an alias of `x`'s anchor; without it they
-share one. -/
-theorem nested_call_clobbers_outer_anchors :
-    (runCall withNestedCall Tls.init).1.out = .ok ∧ (runCall withNestedCall Tls.init).1.ptrs = [0, 1] ∧
+/-- former finding `C15-nested-call-clobbers-anchors`: `x: &a {v: 1}` / `n: <N::deserialize calls from_str>` /
+`y: *a` with `RcAnchor` fields — `x` and `y` share one pointer again, exactly as without the nested call. -/
+theorem nested_call_preserves_outer_anchors :
+    (runCall withNestedCall Tls.init).1.out = .ok ∧ (runCall withNestedCall Tls.init).1.ptrs = [0, 0] ∧
     (runCall withoutNestedCall Tls.init).1.out = .ok ∧ (runCall withoutNestedCall Tls.init).1.ptrs = [0, 0] := by
   decide
 
-theorem nested_call_transparent_Full_false : ¬ nested_call_transparent_Full := by
-  intro h
-  -- the state reached after `x`, then `n` (nested call), then `y`
-  have := (h callNonZero (rcField 1 (loc 3 4) (loc 1 8) .done) none
-    { anchors := { store := [((.rc, 1), 0)] }, next := 1, ptrs := [0] } (by decide)).2
-  revert this
-  decide
-
-/-- (F) second manifestation of the same defect: the nested call also clears `in_progress`, which the event
-source consults for an alias to the node being built — the self reference of a recursive anchor then fails
-with `RecursiveReferencesRequireWeakTypes` instead of building the cycle. -/
-theorem nested_call_breaks_recursive_anchor :
-    (runCall (recDoc fun k => .nest callNonZero k) Tls.init).1.out = .err (loc 4 7) ∧
+/-- second manifestation of the same former finding: the self reference of an `RcRecursive` node survives a
+nested call made while the node is being built (`in_progress` is no longer cleared): the cycle is built. -/
+theorem nested_call_preserves_recursive_anchor :
+    (runCall (recDoc fun k => .nest callNonZero k) Tls.init).1.out = .ok ∧
+    (runCall (recDoc fun k => .nest callNonZero k) Tls.init).1.ptrs = [0, 0] ∧
     (runCall (recDoc fun k => k) Tls.init).1.out = .ok ∧
     (runCall (recDoc fun k => k) Tls.init).1.ptrs = [0, 0] := by decide
+
+/-- former finding `C15-nested-call-inherits-fallback-location`: `from_str::<NonZeroU8>("0")` entered while the
+cell holds `line 2, column 1` of an enclosing document fails WITHOUT a location, as on a fresh thread, and
+hands the cell back; nested in the witness document its recorded outcome is `err 0` too. -/
+theorem nested_call_reports_no_inherited_location :
+    runCall callNonZero ⟨.empty, some (loc 2 1)⟩ = (⟨.err 0, [], []⟩, ⟨.empty, some (loc 2 1)⟩) ∧
+    (runCall callNonZero Tls.init).1.out = .err 0 ∧
+    Item.nestEnd (.err 0) [] ∈ (runCall withNestedCall Tls.init).1.trace := by decide
 
 end SaphyrVerif.Tls
